@@ -167,6 +167,20 @@ structure StrictOn (P : α → Prop) (before : α → α → Bool) : Prop where
   asymm : ∀ x y, P x → P y → before x y = true → before y x = false
   trans : ∀ x y z, P x → P y → P z → before x y = true → before y z = true → before x z = true
 
+/-- Every irreflexive, transitive comparison (in particular every strict weak order) qualifies. -/
+theorem StrictOn.of_irrefl_trans {P : α → Prop} {before : α → α → Bool}
+    (hirr : ∀ x, P x → before x x = false)
+    (htr : ∀ x y z, P x → P y → P z → before x y = true → before y z = true → before x z = true) :
+    StrictOn P before where
+  asymm := by
+    intro x y hx hy h
+    cases h' : before y x with
+    | false => rfl
+    | true =>
+      have := htr x y x hx hy hx h h'
+      rw [hirr x hx] at this; cases this
+  trans := htr
+
 /-- `Memory::Sort` on `[s, e)`: enough fuel, never out of range, only swaps inside the segment,
     and the segment ends up ordered. -/
 theorem sortSeg_spec (before : α → α → Bool) (P : α → Prop) (hord : StrictOn P before) :
